@@ -640,3 +640,143 @@ Check C09_text_to_text_cli :
   Forall (stmt_ok_parsed O key_ok None) p ->
   scan_comments (render (format_cli O p)) = forest_comments text forest.
 Print Assumptions C09_text_to_text_cli.
+
+(* ================================================================== round VIEW: forest_view_ok PROVED of Peg.parse
+   (proofs/PegView.v, PegViewItems.v, PegViewCompose.v).  The last tested-only hypothesis of the parser half: the item
+   view PegToItems.conv and the statement loop read EVERY comment / eol_comment pair of the tree.
+   Grammar level: a uniform per-rule postcondition C_view, COMPUTED from gen/Grammar.v (vnames r: the rule names an
+   inner pair of r can have, silent rules unfolded through a table that is itself computed by iterating PegShape.enum;
+   venum r: the finite list of inner-pair name sequences where the body has no pair-yielding repetition; atomic rules:
+   no inner pair), holds of every node of every tree of every parse (generic machinery of PegShape.v).
+   Tree level: three rule classes computed from vnames (Fb comment-free, Vb read completely by conv, Tb transparent)
+   and an induction on the fuel of conv over all ten structural arms of conv. *)
+Require Import Blots.proofs.PegView Blots.proofs.PegViewItems Blots.proofs.PegViewCompose.
+
+(* every node of every tree of every accepted text satisfies the computed inner-pair specification *)
+Theorem C09_view_inner_pairs : forall fuel text s',
+  Peg.parse blots_grammar fuel PG_input text = Peg.Ok s' ->
+  forest_all grule text C_view (rev (out s')).
+Proof. exact view_nodes. Qed.
+Check C09_view_inner_pairs : forall fuel text s',
+  Peg.parse blots_grammar fuel PG_input text = Peg.Ok s' ->
+  forest_all grule text C_view (rev (out s')).
+Print Assumptions C09_view_inner_pairs.
+
+(* what the computed specification says for some rules (regenerated grammar; a grammar change that adds an inner pair
+   the glue code does not read changes these tables and breaks conv_view) *)
+Example C09_view_spec_list_item :
+  venum PG_list_item = Some [[PG_spread_expression]; [PG_spread_expression; PG_eol_comment];
+                             [PG_expression]; [PG_expression; PG_eol_comment]].
+Proof. vm_compute. reflexivity. Qed.
+Example C09_view_spec_do_statement :
+  venum PG_do_statement = Some [[PG_expression]; [PG_expression; PG_comment]; [PG_comment]; [PG_comment; PG_comment]].
+Proof. vm_compute. reflexivity. Qed.
+Example C09_view_spec_lambda : venum PG_lambda = Some [[PG_argument_list; PG_lambda_expression]].
+Proof. vm_compute. reflexivity. Qed.
+Example C09_view_spec_comment_has_no_inner_pair : venum PG_comment = Some [[]] /\ venum PG_eol_comment = Some [[]].
+Proof. split; vm_compute; reflexivity. Qed.
+Example C09_view_spec_list_names : forallb (fun r => gmem r [PG_comment; PG_list_item]) (vnames PG_list) = true.
+Proof. vm_compute. reflexivity. Qed.
+Example C09_view_comment_free_rules :
+  Fb PG_argument_list = true /\ Fb PG_record_key_static = true /\ Fb PG_string = true /\ Fb PG_dot_access = true /\
+  Fb PG_expression = false /\ Fb PG_list_item = false /\ Fb PG_record_key_dynamic = false.
+Proof. repeat split; vm_compute; reflexivity. Qed.
+
+(* the top-level pairs of a parse are `statement` pairs and the EOI pair *)
+Theorem C09_view_top_level : forall fuel text s',
+  Peg.parse blots_grammar fuel PG_input text = Peg.Ok s' ->
+  Forall (fun t => trule t = PG_statement \/ trule t = PG_EOI) (rev (out s')).
+Proof. exact view_top_names. Qed.
+Check C09_view_top_level : forall fuel text s',
+  Peg.parse blots_grammar fuel PG_input text = Peg.Ok s' ->
+  Forall (fun t => trule t = PG_statement \/ trule t = PG_EOI) (rev (out s')).
+Print Assumptions C09_view_top_level.
+
+(* tree level, every text and tree: on a tree whose nodes satisfy C_view, the item of a pair in expression position
+   carries exactly the comment / eol_comment pairs of the pair's subtree (fuel of conv at least the depth) *)
+Theorem C09_view_conv : forall text f t,
+  wgood text f t -> Vb (trule t) = true -> item_comments (conv text f t) = tree_comments text t.
+Proof. exact conv_view. Qed.
+Check C09_view_conv : forall text f t,
+  tree_ok grule text C_view t /\ tree_depth t <= f -> Vb (trule t) = true ->
+  item_comments (conv text f t) = tree_comments text t.
+Print Assumptions C09_view_conv.
+
+(* forest_view_ok — hypothesis of C09_parse_keeps_comments, tested on every tree (flag V) until now — holds of EVERY
+   result of Peg.parse on the regenerated grammar, for every text and fuel: C09_view_items_full is PROVED *)
+Theorem C09_view_items : C09_view_items_full.
+Proof. exact parse_forest_view_ok. Qed.
+Check C09_view_items : C09_view_items_full.
+Check C09_view_items : forall fuel text s',
+  Peg.parse blots_grammar fuel PG_input text = Peg.Ok s' -> forest_view_ok text (rev (out s')) = true.
+Print Assumptions C09_view_items.
+
+(* (a'') parser half from the TEXT, both tree hypotheses discharged: the comment / eol_comment pairs of the tree the
+   PEG model builds = the comments of the commented program, outside the exclusion C09-empty-container *)
+Theorem C09_parse_keeps_comments_text_total : forall text forest p,
+  parse_program_c text = PCOk forest p ->
+  forest_no_empty_container text forest = true ->
+  program_comments p = forest_comments text forest.
+Proof. exact parse_keeps_comments_text_total. Qed.
+Check C09_parse_keeps_comments_text_total : forall text forest p,
+  parse_program_c text = PCOk forest p ->
+  forest_no_empty_container text forest = true ->
+  program_comments p = forest_comments text forest.
+Print Assumptions C09_parse_keeps_comments_text_total.
+
+Theorem C09_parsed_program_comment_texts_total : forall text forest p,
+  parse_program_c text = PCOk forest p ->
+  forest_no_empty_container text forest = true ->
+  Forall comment_text_ok (program_comments p).
+Proof. exact parsed_program_comment_texts_total. Qed.
+Check C09_parsed_program_comment_texts_total : forall text forest p,
+  parse_program_c text = PCOk forest p ->
+  forest_no_empty_container text forest = true ->
+  Forall comment_text_ok (program_comments p).
+Print Assumptions C09_parsed_program_comment_texts_total.
+
+(* (b'') text -> emitted text, both drivers: remaining hypotheses only the exclusion and the formatter half *)
+Theorem C09_text_to_text_lib_total :
+  forall O key_ok, (forall k, key_ok k = true -> neutral (o_record_key O k)) ->
+  forall text forest p mw d,
+  parse_program_c text = PCOk forest p ->
+  forest_no_empty_container text forest = true ->
+  Forall (stmt_ok_parsed O key_ok mw) p -> format_lib O mw p = Some d ->
+  scan_comments (render d) = forest_comments text forest.
+Proof. exact text_to_text_lib_total. Qed.
+Check C09_text_to_text_lib_total :
+  forall O key_ok, (forall k, key_ok k = true -> neutral (o_record_key O k)) ->
+  forall text forest p mw d,
+  parse_program_c text = PCOk forest p ->
+  forest_no_empty_container text forest = true ->
+  Forall (stmt_ok_parsed O key_ok mw) p -> format_lib O mw p = Some d ->
+  scan_comments (render d) = forest_comments text forest.
+Print Assumptions C09_text_to_text_lib_total.
+Theorem C09_text_to_text_cli_total :
+  forall O key_ok, (forall k, key_ok k = true -> neutral (o_record_key O k)) ->
+  forall text forest p,
+  parse_program_c text = PCOk forest p ->
+  forest_no_empty_container text forest = true ->
+  Forall (stmt_ok_parsed O key_ok None) p ->
+  scan_comments (render (format_cli O p)) = forest_comments text forest.
+Proof. exact text_to_text_cli_total. Qed.
+Check C09_text_to_text_cli_total :
+  forall O key_ok, (forall k, key_ok k = true -> neutral (o_record_key O k)) ->
+  forall text forest p,
+  parse_program_c text = PCOk forest p ->
+  forest_no_empty_container text forest = true ->
+  Forall (stmt_ok_parsed O key_ok None) p ->
+  scan_comments (render (format_cli O p)) = forest_comments text forest.
+Print Assumptions C09_text_to_text_cli_total.
+
+(* the hypotheses of the _total theorems are satisfiable: a 13-line text with comments at every position class the item
+   view reads (statement comment, statement end-of-line, list leading / end-of-line / last item, record, do-block comment,
+   do_statement end-of-line); all eight comment pairs of the tree are the eight comments of the parsed program *)
+Example C09_total_hypotheses_satisfiable :
+  exists forest p,
+    parse_program_c view_witness = PCOk forest p
+    /\ forest_no_empty_container view_witness forest = true
+    /\ forest_comments view_witness forest =
+       ["// top"; "// lead"; "// eol"; "// e2"; "// stmt"; "// ra"; "// dc"; "// ds"]%string
+    /\ program_comments p = forest_comments view_witness forest.
+Proof. exact total_hypotheses_satisfiable. Qed.
